@@ -218,3 +218,36 @@ func VC04_SplitAbandon() {
 		vf.Assert(vf.Live() == 0, "split-reader-left-behind")
 	}
 }
+
+// Several senders sharing one buffered channel (ParallelBuffer, GenerateParallel):
+// more items than buffer slots, the consumer stops early.
+func VC04_SharedBuffer() {
+	kind := vc04ParallelBuffer
+	if vf.Choice("generate", 2) == 1 {
+		kind = vc04GenerateParallel
+	}
+	n := vf.Range("items", 3, 4)
+	cut := vf.Range("consume", 0, 1)
+	stop := vc04close + vf.Choice("stop", 3)
+	ctx, cancel := context.WithCancel(context.Background())
+	it := vc04build(kind, n)
+	for i := 0; i < cut; i++ {
+		_, _ = it.ReadOne(ctx)
+	}
+	switch stop {
+	case vc04close:
+		_ = it.Close()
+	case vc04cancel:
+		cancel()
+	case vc04closeThenCancel:
+		_ = it.Close()
+		cancel()
+	}
+	vf.Reach("shared-buffer-stopped")
+	vf.Quiesce()
+	if vf.Live() != 0 {
+		vf.Note(vf.LiveInfo())
+	}
+	vf.Assert(vf.Live() == 0, "goroutine-left-behind-after-the-consumer-stopped")
+	cancel()
+}
